@@ -26,3 +26,45 @@ Theorem C02_root_reader_returns_only_intact_blocks :
     Forall (intact_root hok) (s_blocks out).
 Proof. exact root_read_all_intact. Qed.
 Print Assumptions C02_root_reader_returns_only_intact_blocks.
+
+(* (b) truncation.  For every constructed CARv1 (any roots, any blocks that fit the limits and hash
+   to their CIDs), every option row, and every cut k that is not on a section boundary, the v2
+   BlockReader either fails to open (cut inside the header) or returns exactly the complete blocks in
+   front of the cut and then an error that is NOT a clean end-of-archive. *)
+From GoCarProofs Require Import BytesFacts VarintFacts CidFacts HeaderFacts ScanFacts ScanTrunc.
+Theorem C02_truncation_is_never_a_clean_eof :
+  forall hok hdrdec o roots bs k,
+    archive_ok hok hdrdec o roots bs ->
+    k < blen (enc_payload roots bs) ->
+    ~ (exists j, (j <= length bs)%nat /\
+                 k = blen (ld (enc_header (Some roots) 1)) + blen (enc_sections (firstn j bs))) ->
+    (k < blen (ld (enc_header (Some roots) 1)) /\
+       exists e, br_read_all hok hdrdec o (take k (enc_payload roots bs)) = Err e)
+    \/ (blen (ld (enc_header (Some roots) 1)) <= k /\ exists j e, (j < length bs)%nat /\ e <> EEof /\
+          br_read_all hok hdrdec o (take k (enc_payload roots bs))
+          = Ok (1, roots, mkscan (firstn j bs) e)).
+Proof. exact br_read_all_trunc_v1. Qed.
+Print Assumptions C02_truncation_is_never_a_clean_eof.
+
+(* (c) corruption.  A section whose bytes do not hash to its CID (what flipping a byte of block i's
+   data or digest produces, unless the hash function collides -- that is the hypothesis hash_bad)
+   makes a verifying scan return exactly the blocks in front of it and then an error. *)
+Theorem C02_corrupted_block_stops_the_scan_with_an_error :
+  forall hok hdrdec o roots pre c d rest,
+    o_trusted o = false ->
+    hdr_good hdrdec roots -> blen (enc_header (Some roots) 1) <= o_maxh o ->
+    blen (enc_header (Some roots) 1) < two63 ->
+    Forall (block_ok (o_maxs o)) pre -> Forall (hash_good hok) pre ->
+    block_ok (o_maxs o) (c, d) -> hash_bad hok (c, d) ->
+    br_read_all hok hdrdec o
+      (ld (enc_header (Some roots) 1) ++ enc_sections pre ++ enc_section c d ++ rest)
+    = Ok (1, roots, mkscan pre EOther).
+Proof. exact br_read_all_corrupt_v1. Qed.
+Print Assumptions C02_corrupted_block_stops_the_scan_with_an_error.
+
+(* the intact archive reads back completely (so the two theorems above are about real deviations) *)
+Theorem C02_intact_archive_reads_back :
+  forall hok hdrdec o roots bs, archive_ok hok hdrdec o roots bs ->
+    br_read_all hok hdrdec o (enc_payload roots bs) = Ok (1, roots, mkscan bs EEof).
+Proof. exact br_read_all_v1. Qed.
+Print Assumptions C02_intact_archive_reads_back.
